@@ -194,7 +194,8 @@ def run(tier, seed):
     t0 = time.time()
     reports = xlate_simd.regenerate(xlate_simd.ISAS, core.REPO, log)
     xlate_validate.write_tables(reports, log)
-    ok_all, out = core.lake_build(log=log)
+    # only C08's own modules and the driver: a change that breaks another property's proofs must not alarm here
+    ok_all, out = core.lake_build(targets=["FastorModel.Props.%s" % m for m in PROP_MODULES] + ["fmodel"], log=log)
     thms_by_mod = all_theorems()
     thms = [t for m in PROP_MODULES for t in thms_by_mod[m]]
     v.cov["obligations"] = len(thms); v.cov["discharged"] = 0
